@@ -1,3 +1,4 @@
+import RavenModel.Model.Plan
 import RavenModel.Model.Lifetime
 /-! # C20 — sessions end when their client is gone; services shut down cleanly -/
 namespace Raven.Props.C20
@@ -105,5 +106,22 @@ theorem conns_monotone_after_shutdown : ∀ (es : List SEv) (s : Srv), s.listeni
 
 example : (srun { listening := true, stopping := false, conns := 0, acceptors := 1 } [.dial, .shutdown, .dial, .connDone, .acceptorExit]) =
     ({ listening := false, stopping := true, conns := 0, acceptors := 0 }, [true, false, false, false, false]) := by decide
+
+/-! ## the deadlines the code arms (regenerated from /repo on every run) -/
+
+/-- C20.11  the read deadlines of `deadlineMs` are the ones in the code: every waiting loop arms the deadline the model
+gives its state (command line 30 min, literal 5 min with a 100 ms drain, AUTHENTICATE response 30 s, IDLE poll 50 ms, SASL
+30 s at both reads, LMTP the configured `timeout` at both reads), no deadline is ever lifted (`time.Time{}`), and nothing
+else in the services touches a deadline. -/
+theorem plan_deadlines :
+    Raven.Plan.deadlinesAt (b!"server.handleClient") = (deadlineMs 300 .imapCmd).toList.map Int.ofNat ∧
+    Raven.Plan.deadlinesAt (b!"message.HandleAppendWithReader") = 100 :: (deadlineMs 300 .imapLiteral).toList.map Int.ofNat ∧
+    Raven.Plan.deadlinesAt (b!"auth.HandleAuthenticate") = (deadlineMs 300 .imapAuthWait).toList.map Int.ofNat ∧
+    Raven.Plan.deadlinesAt (b!"extension.HandleIdle") = (deadlineMs 300 .imapIdle).toList.map Int.ofNat ∧
+    Raven.Plan.deadlinesAt (b!"sasl.Server.handleConnection") = ((deadlineMs 300 .saslCmd).toList ++ (deadlineMs 300 .saslCmd).toList).map Int.ofNat ∧
+    ((Raven.Gen.deadlines.filter (fun d => d.at' = (b!"lmtp.Session.Handle"))).map (fun d => (d.ms, d.var))) = [(-1, (b!"timeout")), (-1, (b!"timeout"))] ∧
+    Raven.Gen.deadlines.all (fun d => d.ms ≠ 0) = true ∧
+    Raven.Gen.deadlines.length = 11 := by
+  decide
 
 end Raven.Props.C20
